@@ -142,17 +142,9 @@ func runFreeHistory(idx int, dir, tier string, seed, t0 int64) *ledger {
 						return
 					}
 					rows := batches[next]
-					bi := next
 					next++
 					bmu.Unlock()
-					switch bi % 5 {
-					case 2:
-						d.appendRows(rows, 1, false, "corrupt") // an entry the replicator rejects, behind valid ones
-					case 4:
-						d.appendRows(rows, 1, false, "garbage")
-					default:
-						d.appendRows(rows, 1, false)
-					}
+					d.appendRows(rows, 1, false)
 				}
 			}()
 		}
